@@ -169,6 +169,65 @@ func c01GenRuleText(r *rng) string {
 	}
 }
 
+// c01Crowd returns k distinct rule texts that all land in the same lookup structure of the network engine and
+// (mostly) match the same requests, so that the k-th entry of a table / bucket / candidate list is exercised:
+//
+//	kind 0  sequential table: a short pattern (no 5-byte shortcut) and no PERMITTED domain
+//	kind 1  one bucket of the $domain table: a short pattern and a shared permitted domain (plus own ones)
+//	kind 2  one bucket of the shortcuts table: a shortcut of exactly one window, or one stem
+//	kind 3  a mix of the three
+func c01Crowd(r *rng, k int) (out []string) {
+	kind := r.n(4)
+	short := pick(r, []string{"ad", "/ad", "ads", "/a/", ".js", "pop", "x", "_"})
+	key := pick(r, []string{"abcde", "track", "/ads/", "/banner", "advertising"})
+	shared := pick(r, poolDomains)
+	for i := 0; i < k; i++ {
+		own := fmt.Sprintf("v%04d.example.net", i)
+		kd := kind
+		if kd == 3 {
+			kd = r.n(3)
+		}
+		var variant string
+		switch r.n(5) {
+		case 0:
+			variant = "$domain=~" + own
+		case 1:
+			variant = fmt.Sprintf("$ctag=~tag_%04d", i)
+		case 2:
+			variant = fmt.Sprintf("$client=~10.%d.%d.%d", i/65536, i/256%256, i%256)
+		case 3:
+			variant = "$denyallow=" + own
+		default:
+			variant = fmt.Sprintf("$dnstype=~A,ctag=~t%d", i)
+		}
+		switch kd {
+		case 0:
+			out = append(out, short+variant)
+		case 1:
+			ds := []string{shared, own}
+			if r.chance(1, 2) {
+				ds = []string{own, shared}
+			}
+			if r.chance(1, 4) {
+				ds = []string{shared}
+				variant = strings.Replace(variant, "$domain=~"+own, fmt.Sprintf("$ctag=~u%d", i), 1)
+			}
+			v := "$domain=" + strings.Join(ds, "|")
+			if !strings.HasPrefix(variant, "$domain=") {
+				v += "," + variant[1:]
+			}
+			out = append(out, short+v)
+		default:
+			out = append(out, key+variant)
+		}
+		if r.chance(1, 12) {
+			out[len(out)-1] = "@@" + out[len(out)-1]
+		}
+	}
+
+	return out
+}
+
 type c01Scenario struct {
 	storage *filterlist.RuleStorage
 	engine  *urlfilter.NetworkEngine
@@ -184,15 +243,31 @@ func c01BuildScenario(r *rng) *c01Scenario { return c01BuildScenarioWith(r, c01G
 
 // c01BuildScenarioWith: the scenario builder over any rule text generator.
 func c01BuildScenarioWith(r *rng, genText func(*rng) string) *c01Scenario {
-	nLists := 1 + r.n(4)
+	// sizes: mostly small; 1 scenario in 16 has MANY lists (log-scale up to 80), 1 in 10 is CROWDED (see c01Crowd)
+	nLists := nCount(r, 1+r.n(4), 16, 5, 80)
 	nRules := 1 + r.n(12)
 	if r.chance(1, 4) {
 		nRules = 1 + r.n(60)
 	}
 	ids := append([]int{}, c01ListIDs...)
 	shuffle(r, ids)
+	for k := 0; len(ids) < nLists+2; k++ {
+		ids = append(ids, 10+37*k) // more lists than the fixed ids: generated distinct ids
+	}
 	bodies := make([][]string, nLists)
 	var all []string
+	if r.chance(1, 10) {
+		// a CROWDED table: a log-scale number (up to 400) of distinct rules that all land in ONE lookup structure
+		// (the sequential table / one $domain bucket / one shortcut bucket), spread over the lists among the others
+		for _, t := range c01Crowd(r, nLog(r, 9, 400)) {
+			if _, err := rules.NewNetworkRule(t, 1); err != nil {
+				continue
+			}
+			all = append(all, t)
+			l := r.n(nLists)
+			bodies[l] = append(bodies[l], t)
+		}
+	}
 	for i := 0; i < nRules; i++ {
 		var t string
 		if len(all) > 0 && r.chance(1, 8) {
@@ -314,6 +389,12 @@ func c01URL(r *rng, sc *c01Scenario) string {
 			return pick(r, poolSchemes) + "://" + host + "/q" + pick(r, []string{"\u023a", "\u023e\u023a", "\u0130", "\u212a", "\u0130\u0130\u0130"}) + "?" + lit()
 		}
 
+		if r.chance(1, 3) {
+			// ... of a LONG URL: the only occurrence of the shortcut lies hundreds or thousands of bytes in (log-scale,
+			// up to beyond the 4 KiB cap where it is cut off or cut in two)
+			return pick(r, poolSchemes) + "://" + host + "/q" + nPad(r, nPadLen(r)) + "?" + lit() + pick(r, []string{"", "", "&x=1"})
+		}
+
 		return pick(r, poolSchemes) + "://" + host + "/q?" + lit()
 	case 1: // repeated windows
 		l := lit()
@@ -358,6 +439,10 @@ func c01Source(r *rng, f *rules.NetworkRule) string {
 	}
 	if r.chance(1, 6) {
 		d = mutateCase(r, d) // the source host as written: it is not lower-cased for the $domain tests
+	}
+	if r.chance(1, 14) {
+		// a long / deep source host (up to 253 bytes, up to a hundred labels) under the permitted domain
+		return pick(r, []string{"http://", "https://"}) + nLongHost(r, d) + pick(r, []string{"", "/", "/page"})
 	}
 
 	return pick(r, []string{"http://", "https://"}) + pick(r, []string{"", "", "www.", "a.b."}) + d + pick(r, []string{"", "/", "/page"})
@@ -437,6 +522,11 @@ func c01Request(r *rng, sc *c01Scenario) *rules.Request {
 	default:
 		u = c01URL(r, sc)
 	}
+	if r.chance(1, 12) {
+		// a LONG URL (log-scale filler after the host, up to beyond the 4 KiB cap): the windows that index the rules
+		// lie far from the start of the URL
+		u = nLongURL(r, u, nPadLen(r))
+	}
 	q := rules.NewRequest(u, c01Source(r, f), pick(r, poolReqTypes))
 	if r.chance(1, 6) {
 		q.SortedClientTags = genSortedTags(r)
@@ -478,7 +568,7 @@ func c01Gen(r *rng, n int, w *bufio.Writer) {
 			ans := guardStr(func() string { return bSortedTextSet(texts(sc.engine.MatchAll(q))) })
 			var pats []string
 			for _, f := range sc.nets {
-				if p := wpat(f, q.URL, q.Hostname); p != "" {
+				if p := wpat(f, q.URL, q.Hostname); p != "" && !nSeenPat(&pats, p) {
 					pats = append(pats, p)
 				}
 			}
@@ -504,7 +594,7 @@ func c01HashGen(r *rng, n int, w *bufio.Writer) {
 			s = pick(r, []string{"", "a", "ab", "/banner", "example.org", "\x00\xff\x80", "bücher.example", "ü", "büche", "\xbccher", "пример.рф", "日本語.jp",
 				"http://bücher.example/реклама?ü=1", "\u0130", "a\u212a", "\U0001F600.example"})
 		case 1:
-			b := make([]byte, r.n(40))
+			b := make([]byte, nCount(r, r.n(40), 8, 40, 6000)) // 1 string in 8: log-scale length up to 6000 bytes
 			for i := range b {
 				b[i] = byte(r.n(256))
 			}
